@@ -8,6 +8,7 @@ import MotoModel.Proofs.BasicCompose
 import MotoModel.Proofs.BasicWords
 import MotoModel.Proofs.BasicReference
 import MotoModel.Proofs.BasicProgram
+import MotoModel.Proofs.ConvCli
 namespace Moto.C13
 open Moto Moto.Basic Moto.Spec
 
@@ -321,5 +322,15 @@ theorem typed_listing_is_a_valid_program (finalLF : Bool) (ps : List (Nat × Str
   intro hsz
   exact parseProgram_convert (listingText finalLF ps) ps _ hconv hp
     (fun p hp' c hc => (hch p hp' c hc).1) hsz
+
+
+/-- **C13 (the file `moto_lst2bas x.lst` writes)**: for a listing the converter accepts, the command writes exactly one file —
+    `x.bas` beside the listing, same stem as typed, extension `lst` in either letter case — whose bytes are `convert text`: the
+    program image of `convert_is_a_valid_program`; a listing with a line that carries no number ends the run with a `ValueError`
+    and an empty `x.bas` (`Conv.lst2bas_tokenized_refused`). -/
+theorem cli_writes_the_program_beside_the_listing (w : Str → Option Str) (stem ext text : Str) (file : Bytes)
+    (hext : upper ext = Conv.str "LST") (hw : w (stem ++ 46 :: ext) = some text) (hc : convert text = some file) :
+    Conv.lst2basOne w (stem ++ 46 :: ext) = { writes := [(stem ++ 46 :: Conv.str "bas", file)] } :=
+  Conv.lst2bas_tokenized w stem ext text file hext hw hc
 
 end Moto.C13
